@@ -632,7 +632,7 @@ func (cs *ContractSet) LoadContractFile(path, pkgName string, trusted bool) erro
 			sf := &SpecFunc{Name: name, Params: params, Body: e, Src: src}
 			cs.Specs[name+"@"+filepath.Base(path)] = sf
 			if prev, dup := cs.Specs[name]; dup {
-				if prev.Src != src || strings.Join(prev.Params, ",") != strings.Join(params, ",") {
+				if canonSpec(prev.Src, prev.Params) != canonSpec(src, params) {
 					if cs.SpecAmbig == nil {
 						cs.SpecAmbig = map[string]string{}
 					}
@@ -979,4 +979,26 @@ func renameSpecCalls(x Expr, m map[string]string) {
 	case *ETypeAssert:
 		renameSpecCalls(n.X, m)
 	}
+}
+
+// canonSpec: the macro body with the parameter names replaced by positions (alpha-equivalence).
+func canonSpec(src string, params []string) string {
+	toks, err := lex(src)
+	if err != nil {
+		return src
+	}
+	pos := map[string]int{}
+	for i, p := range params {
+		pos[p] = i
+	}
+	var b strings.Builder
+	for _, t := range toks {
+		txt := t.k + ":" + t.s
+		if i, ok := pos[t.s]; ok && t.k == "id" {
+			txt = fmt.Sprintf("$%d", i)
+		}
+		b.WriteString(txt)
+		b.WriteByte(' ')
+	}
+	return b.String()
 }
